@@ -102,7 +102,8 @@ class C16(Prop):
                     # a quarter of the chains end in a file that only selects a dialect, under files that select none
                     dialect_only_tail = len(names) > 1 and rnd.randint(0, 3) == 0
                     for j, nm in enumerate(names):
-                        vs = rnd.choice([[], [], [rnd.choice(VNAMES)], [rnd.choice(VNAMES), rnd.choice(VNAMES)], ["lua51"]])
+                        vs = rnd.choice([[], [], [rnd.choice(VNAMES)], [rnd.choice(VNAMES), rnd.choice(VNAMES)], ["lua51"],
+                                         [rnd.choice(VNAMES), "lua99"], ["lua55", rnd.choice(VNAMES)]])
                         if dialect_only_tail:
                             vs = [rnd.choice(VNAMES)] if j == len(names) - 1 else []
                         base = names[j + 1] if j + 1 < len(names) else tail
